@@ -422,8 +422,13 @@ class TrackWorld(World):
         kl = r.randint(0, k - 1)
         kr = k - 1 - kl
         L, R = self._gen_tree(r, m, kl, False), self._gen_tree(r, m, kr, False)
+        u = r.random()
+        if u < 0.12 and kr == 0:
+            return ["b", "/", L, ["l", r.choice([2, 0.5, 10, 4])]]           # division by a non-zero number
+        if u < 0.24 and kr == 0:
+            return ["b", r.choice([">>", "<<"]), L, ["l", r.choice([1, 2, 3])]]   # circular delay / advance
         if r.random() < 0.3:
-            lit = ["l", r.choice([2, 3, 0.5, 10])]
+            lit = ["l", r.choice([2, 3, 0.5, 10])] if r.random() < 0.7 else ["v", r.choice(["k1", "k2"])]
             if kl == 0 and r.random() < 0.5:
                 L = lit
             elif kr == 0:
@@ -436,6 +441,7 @@ class TrackWorld(World):
               "lit": r.choice([2, 3, 0.5, 10]), "api": r.choice(["operate", "getitem"])}
         if st["shape"] == "tree":
             st["tree"] = self._gen_tree(r, m, r.choice([2, 3, 3, 4, 5, 7, 12, 14]))
+            st["ext"] = {"k1": r.choice([2.0, 7.0, 0.5]), "k2": r.choice([0.25, 3.0, -1.5])}
             st["bare"] = r.random() < 0.5
             if r.random() < 0.25:
                 st["reflex"] = r.choice("+-*")          # out += tree, out -= tree, out *= tree
@@ -447,6 +453,7 @@ class TrackWorld(World):
               "lit": r.choice([2, 3, 0.5]), "api": r.choice(["operate", "getitem"])}
         if st["shape"] == "tree":
             st["tree"] = self._gen_tree(r, m, r.choice([2, 3, 4, 6, 12]))
+            st["ext"] = {"k1": r.choice([2.0, 7.0, 0.5]), "k2": r.choice([0.25, 3.0, -1.5])}
             st["bare"] = r.random() < 0.5
         return st
 
@@ -1263,7 +1270,7 @@ class TrackWorld(World):
     def _tree_names(self, t):
         if t[0] in ("n", "g"):
             return [t[-1]]
-        if t[0] == "l":
+        if t[0] in ("l", "v"):
             return []
         if t[0] == "f":
             return self._tree_names(t[2])
@@ -1278,11 +1285,16 @@ class TrackWorld(World):
             return t[1]
         if k == "l":
             return self._lit(t[1])
+        if k == "v":
+            return t[1]
         if k == "g":
             return "%s{%s}" % (t[1], t[2])
         if k == "f":
             return "%s{%s}" % (t[1], self._tree_text(t[2], bare))
-        txt = "%s%s%s" % (self._tree_text(t[2], bare, t[1]), t[1], self._tree_text(t[3], bare, t[1]))
+        left = self._tree_text(t[2], bare, t[1])
+        if t[1] in (">>", "<<") and t[2][0] in ("f", "g"):
+            left = "(" + left + ")"      # the shift operators bind tighter than a function application
+        txt = "%s%s%s" % (left, t[1], self._tree_text(t[3], bare, t[1]))
         if parent is None or (bare and t[1] == "*" and parent in "+-"):
             return txt
         return "(" + txt + ")"
@@ -1296,6 +1308,9 @@ class TrackWorld(World):
             return list(self._col(m, t[1]))
         if k == "l":
             return float(t[1])
+        if k == "v":
+            self._ext[t[1]] = self._ext_vals[t[1]]          # external variable passed next to the expression
+            return float(self._ext_vals[t[1]])
         self._napp += 1
         if k == "g":
             col = self._col(m, t[2])
@@ -1320,6 +1335,12 @@ class TrackWorld(World):
             A = [A] * n
         if isinstance(B, float):
             B = [B] * n
+        if op == "/":
+            inv = 1.0 / B[0]                 # documented definition: x * (1 / number)
+            return [u * inv for u in A]
+        if op in (">>", "<<"):
+            k2 = int(B[0]) if op == ">>" else -int(B[0])
+            return [A[(i - k2) % n] for i in range(n)]
         if op == "+":
             return [u + v for u, v in zip(A, B)]
         if op == "-":
@@ -1333,6 +1354,8 @@ class TrackWorld(World):
             if any(not self._input_ok(m, nm) for nm in names):
                 raise Skip()
             self._napp = 0
+            self._ext = {}
+            self._ext_vals = st.get("ext") or {"k1": 2.0, "k2": 0.25}
             val = self._tree_eval(st["tree"], m)
             if any(isinstance(v, float) and v == v and abs(v) > 1e15 for v in val):
                 raise Skip()
@@ -1429,7 +1452,11 @@ class TrackWorld(World):
                 text = "%s%s=%s" % (out, op, rhs)
                 ntemp += 1
                 self.probe("reflexive_assignment_of_a_compound_expression")
-        if st.get("api") == "getitem":
+        ext = getattr(self, "_ext", None) if sh == "tree" else None
+        if ext:
+            self.probe("expression_with_external_variables")
+            rv, exc = self.call(t.operate, text, dict(ext))
+        elif st.get("api") == "getitem":
             rv, exc = self.call(t.__getitem__, text)
         else:
             rv, exc = self.call(t.operate, text)
@@ -1460,7 +1487,11 @@ class TrackWorld(World):
         if any(not self._input_ok(m, i) for i in ins):
             raise Skip()
         text, exp, _, ntemp = self._build_expr(st, m)
-        if st.get("api") == "getitem" and any(ch in text for ch in "+-/*^()"):
+        ext = getattr(self, "_ext", None) if st["shape"] == "tree" else None
+        if ext:
+            self.probe("expression_with_external_variables")
+            rv, exc = self.call(t.operate, text, dict(ext))
+        elif st.get("api") == "getitem" and any(ch in text for ch in "+-/*^()"):
             rv, exc = self.call(t.__getitem__, text)      # bracket form needs an operator character
         else:
             rv, exc = self.call(t.operate, text)
